@@ -317,10 +317,12 @@ where
     }
 
     pub(crate) fn disk_used(&self) -> u64 {
-        if let State::OnDisk(file) = &self.inner {
-            file.file_size()
-        } else {
-            0
+        match &self.inner {
+            State::OnDisk(file) => file.file_size(),
+            // a file written by an earlier dump stays on disk while the index is loaded in memory
+            State::InMemory(_) => std::fs::metadata(self.name.as_path())
+                .map(|m| m.len())
+                .unwrap_or(0),
         }
     }
 }
